@@ -43,6 +43,8 @@ func runC09(r *fw.Run, p *fw.Program) {
 	c09Zero(r, p)
 	c09Concat(r, p)
 	c09JQ(r, p)
+	c09Err(r, p)
+	c09Borrowed(r, p)
 	r.Assumption("C09: two distinct pointer/reader parameters of one function do not alias; math/big, bytes.Buffer and builtin min behave as documented")
 }
 
@@ -766,7 +768,7 @@ func c09BigBounds(b *ssa.BasicBlock, x ssa.Value) (lo, hi int64, hasLo, hasHi bo
 // C09.byte
 
 func c09Byte(r *fw.Run, p *fw.Program) {
-	ru := r.Rule("C09.byte", "every narrowing of an array member to a byte in toBitReaderEx (int, float64, *big.Int fast paths and the inArray slow path) is dominated by guards proving 0<=v<=255 on the full value (for *big.Int: Cmp/Sign/BitLen of the big value, never only its low 64 bits); the slow path rejects exactly the complement with an error; every fast-path iteration either writes the member or abandons the fast path", 4)
+	ru := r.Rule("C09.byte", "every narrowing of an array member to a byte in toBitReaderEx (int, float64, *big.Int fast paths and the inArray slow path) is dominated by guards proving 0<=v<=255 on the full value (for *big.Int: Cmp/Sign/BitLen of the big value, never only its low 64 bits); the slow path rejects exactly the complement with an error; every fast-path iteration either writes the member or abandons the fast path; an accepted slow-path member becomes NewBitReader(one-byte array, -1), returned; the fast-path buffer (nil = abandoned) is only used under a non-nil test", 7)
 	fn := c09Fn(ru, p, "pkg/interp.toBitReaderEx")
 	if fn == nil {
 		return
@@ -878,6 +880,9 @@ func c09Byte(r *fw.Run, p *fw.Program) {
 			}
 		}
 		ru.Ok(key, pos, "slow path: exactly 0..255 accepted, complement returns an error")
+		// the accepted member becomes exactly one whole byte
+		okR, whyR := c09OneByteReader(fn, cv)
+		ru.Check(okR, "toBitReaderEx:slow-reader", pos, "NewBitReader(one-byte array holding the member, -1) is returned", "array member on the slow path: "+whyR+" (a member must contribute exactly its 8 bits)")
 	})
 	if nSlow == 0 {
 		ru.Undecided("toBitReaderEx:byte<-slow", p.Rel(fn.Pos()), "no byte narrowing guarded by inArray found (slow path anchor)")
@@ -921,6 +926,36 @@ func c09Byte(r *fw.Run, p *fw.Program) {
 		}
 	}
 	ru.Check(okAll && nEdges >= 1, "toBitReaderEx:fast-loop", p.Rel(bufPhi.Pos()), fmt.Sprintf("%d continuing arms all write their member; all other arms abandon the fast path", nEdges), "fast path may silently drop an array member: "+why)
+	// the buffer variable doubles as the "still on the fast path" flag: it is nil once a member
+	// does not fit, so every use must be under a non-nil test
+	okNil, whyNil, nUse := true, "", 0
+	if bufPhi.Referrers() != nil {
+		for _, ref := range *bufPhi.Referrers() {
+			c, ok := ref.(*ssa.Call)
+			if !ok || len(c.Call.Args) == 0 || c.Call.Args[0] != ssa.Value(bufPhi) || c.Call.IsInvoke() {
+				continue
+			}
+			nUse++
+			guarded := false
+			for _, g := range fw.Guards(c.Block()) {
+				g = g.Normalize()
+				bo, isB := g.Cond.(*ssa.BinOp)
+				if !isB || (bo.Op != token.NEQ && bo.Op != token.EQL) {
+					continue
+				}
+				if !((bo.X == ssa.Value(bufPhi) && c09IsNilConst(bo.Y)) || (bo.Y == ssa.Value(bufPhi) && c09IsNilConst(bo.X))) {
+					continue
+				}
+				if (bo.Op == token.NEQ) == g.True {
+					guarded = true
+				}
+			}
+			if !guarded {
+				okNil, whyNil = false, fw.CalleeName(c)+" is reachable after the fast path was abandoned (buffer is nil)"
+			}
+		}
+	}
+	ru.Check(okNil && nUse >= 3, "toBitReaderEx:fast-nil", p.Rel(bufPhi.Pos()), fmt.Sprintf("%d uses of the fast-path buffer, all under buffer != nil", nUse), "fast path: "+whyNil)
 	// the fast path result is exactly the buffer's bytes, whole
 	okRes := false
 	for _, c := range c09CallsTo(fn, fw.Mod+"/pkg/bitio.NewBitReader") {
@@ -1134,9 +1169,24 @@ func c09Accept(r *fw.Run, p *fw.Program) {
 						}
 					}
 				}
+				// the list starts empty: no reader before the first member
+				for _, ed := range ph.Edges {
+					if ap, ok := ed.(*ssa.Call); ok && fw.IsBuiltinCall(ap, "append") {
+						continue
+					}
+					if c09IsNilConst(ed) || ed == ssa.Value(ph) {
+						continue
+					}
+					if mk, ok := ed.(*ssa.MakeSlice); ok {
+						if k, isC := c09ConstInt(mk.Len); isC && k == 0 {
+							continue
+						}
+					}
+					okMR = false
+				}
 			}
 		}
-		ru.Check(okMR, "toBitReaderEx:concat", p.Rel(fn.Pos()), "members are appended in order and concatenated with NewMultiReader", "slow path does not concatenate rr = append(rr, member) with bitio.NewMultiReader")
+		ru.Check(okMR, "toBitReaderEx:concat", p.Rel(fn.Pos()), "members are appended in order to an initially empty list and concatenated with NewMultiReader", "slow path does not concatenate rr = append(rr, member), starting from an empty rr, with bitio.NewMultiReader")
 	}
 	if tb := c09Fn(ru, p, "pkg/interp.ToBitReader"); tb != nil {
 		ok := false
@@ -1201,4 +1251,109 @@ func c09Accept(r *fw.Run, p *fw.Program) {
 		}
 		ru.Check(okAll && n >= 3, "toBigInt:value", p.Rel(tb.Pos()), "each numeric arm returns the member's own value", "toBigInt does not return the (converted) member itself on a numeric arm, or returns (nil,nil)")
 	}
+}
+
+// c09OneByteReader: the byte value cv is stored as the only element of a one-byte array/slice
+// literal that is handed whole to bitio.NewBitReader(..., -1) (directly or in a small helper the
+// byte is passed to), and that reader is returned with a nil error.
+func c09OneByteReader(fn *ssa.Function, cv ssa.Value) (bool, string) {
+	rd, why := c09ByteReaderOf(cv, 0)
+	if rd == nil {
+		return false, why
+	}
+	for _, rt := range c09Returns(fn) {
+		if len(rt.Results) == 2 && c09StripIface(rt.Results[0]) == rd && c09IsNilConst(rt.Results[1]) {
+			return true, ""
+		}
+	}
+	return false, "the one-byte reader is not what is returned"
+}
+
+// c09ByteReaderOf returns the value (in the function of v) that is the 8-bit reader over byte v.
+func c09ByteReaderOf(v ssa.Value, depth int) (ssa.Value, string) {
+	var arr *ssa.Alloc
+	for _, u := range fw.UsesThroughConv(v) {
+		switch x := u.(type) {
+		case *ssa.Store:
+			ia, ok := x.Addr.(*ssa.IndexAddr)
+			if !ok || x.Val != v {
+				continue
+			}
+			a, ok := ia.X.(*ssa.Alloc)
+			if !ok {
+				continue
+			}
+			if k, isC := c09ConstInt(ia.Index); !isC || k != 0 {
+				return nil, "the byte is not element 0 of its array"
+			}
+			arr = a
+		case *ssa.Call:
+			// a helper that builds the reader from the byte
+			g := x.Call.StaticCallee()
+			if g == nil || !fw.InFq(g) || g.Blocks == nil || depth > 0 || x.Call.IsInvoke() {
+				continue
+			}
+			for i, a := range x.Call.Args {
+				if a != v || i >= len(g.Params) {
+					continue
+				}
+				inner, _ := c09ByteReaderOf(g.Params[i], depth+1)
+				if inner == nil {
+					continue
+				}
+				rts := c09Returns(g)
+				if len(rts) != 1 || len(rts[0].Results) == 0 || c09StripIface(rts[0].Results[0]) != inner {
+					continue
+				}
+				if len(rts[0].Results) == 1 {
+					return x, ""
+				}
+				if x.Referrers() != nil {
+					for _, ref := range *x.Referrers() {
+						if ex, ok := ref.(*ssa.Extract); ok && ex.Index == 0 {
+							return ex, ""
+						}
+					}
+				}
+			}
+		}
+	}
+	if arr == nil {
+		return nil, "the accepted byte is not stored into a byte array"
+	}
+	pt, ok := arr.Type().Underlying().(*types.Pointer)
+	if !ok {
+		return nil, "unexpected array local"
+	}
+	at, ok := pt.Elem().Underlying().(*types.Array)
+	if !ok || at.Len() != 1 || !c09IsByteType(at.Elem()) {
+		return nil, "the member is placed in " + pt.Elem().String() + ", want a one-byte array"
+	}
+	var sl *ssa.Slice
+	for _, ref := range *arr.Referrers() {
+		switch x := ref.(type) {
+		case *ssa.Slice:
+			if x.Low != nil || x.High != nil || x.Max != nil || sl != nil {
+				return nil, "the byte array is not used whole"
+			}
+			sl = x
+		case *ssa.IndexAddr, *ssa.DebugRef:
+		default:
+			return nil, "the byte array is used other than by one whole slice"
+		}
+	}
+	if sl == nil || sl.Referrers() == nil {
+		return nil, "the byte array is never turned into a reader"
+	}
+	for _, ref := range *sl.Referrers() {
+		c, ok := ref.(*ssa.Call)
+		if !ok || fw.CalleeName(c) != fw.Mod+"/pkg/bitio.NewBitReader" || c.Call.Args[0] != ssa.Value(sl) {
+			continue
+		}
+		if k, isC := c09ConstInt(c.Call.Args[1]); !isC || k != -1 {
+			return nil, "the one-byte reader is not created with length -1 (all 8 bits)"
+		}
+		return c, ""
+	}
+	return nil, "the byte array is not handed to bitio.NewBitReader"
 }
